@@ -33,8 +33,8 @@ RULE = ("case = one configuration (differential) or one (configuration, crash po
 ASSUMPTIONS = ["Linux /proc", "the harness puts /venv/bin on PATH so that the plug-in runner script is found", "population methods get an explicit seed option"]
 CASE_TIMEOUT = 240
 SHARD_TIMEOUT = {"quick": 900, "thorough": 7200}
-REQUIRED = {"quick": {"external_runs": 25, "trace_pairs_compared": 8, "kill_runs": 8, "evaluator_exception_runs": 3, "process_table_checked": 25, "messages_counted": 100, "messages_beyond_one_pipe_buffer": 7, "explicit_start_vector_pairs": 3, "__nontrivial__": 20},
-            "thorough": {"external_runs": 300, "trace_pairs_compared": 80, "kill_runs": 120, "evaluator_exception_runs": 50, "process_table_checked": 300, "messages_counted": 2000, "messages_beyond_one_pipe_buffer": 70, "__nontrivial__": 250}}
+REQUIRED = {"quick": {"external_runs": 25, "trace_pairs_compared": 8, "kill_runs": 8, "evaluator_exception_runs": 3, "process_table_checked": 25, "messages_counted": 100, "messages_beyond_one_pipe_buffer": 7, "configurations_compared_at_the_pipe": 14, "explicit_start_vector_pairs": 3, "__nontrivial__": 20},
+            "thorough": {"external_runs": 300, "trace_pairs_compared": 80, "kill_runs": 120, "evaluator_exception_runs": 50, "process_table_checked": 300, "messages_counted": 2000, "messages_beyond_one_pipe_buffer": 70, "configurations_compared_at_the_pipe": 140, "__nontrivial__": 250}}
 N = {"quick": {"diff": 27, "kill": 3, "exc": 2}, "thorough": {"diff": 270, "kill": 30, "exc": 20}}
 MAX_ROUNDS_AFTER_DEATH = 6
 
@@ -60,7 +60,7 @@ def gen_spec(rng, i):
     if big:
         # messages far beyond one pipe buffer (4096 bytes): the configuration and every evaluation request / answer
         V = 6 if method == "differential_evolution" else int(rng.integers(250, 400))
-    n_con = int(rng.integers(0, 2)) if method in ("slsqp", "cobyla", "differential_evolution") else 0
+    n_con = int(rng.integers(0, 2)) if method in ("slsqp", "cobyla") else (int(rng.random() < 0.7) if method == "differential_evolution" else 0)
     F = 1 + n_con
     spec = {"V": V, "R": R, "P": P, "rweights": [1.0] * R, "oweights": [1.0], "n_con": n_con, "x0": rng.uniform(-0.3, 0.3, size=V).tolist(), "seed": int(rng.integers(1, 999)),
             "magnitudes": [0.01], "samplers": [{"method": str(rng.choice(["norm", "sobol", "uniform"]))}],
@@ -80,10 +80,15 @@ def gen_spec(rng, i):
             spec["optimizer"]["parallel"] = True
         spec["rmin"] = 0 if rng.random() < 0.5 else 1
     else:
-        if rng.random() < 0.4 and method != "cobyla":
+        if rng.random() < (0.1 if method in ("nelder-mead", "powell") else 0.4) and method != "cobyla":
             spec["lb"], spec["ub"] = [-1.0] * V, [1.0] * V
             if rng.random() < 0.5:
                 spec["ptypes"], spec["magnitudes"] = [2] * V, [0.01]
+        elif (method in ("nelder-mead", "powell") or rng.random() < 0.5) and method not in ("cobyla", "cg", "bfgs"):
+            # partly bounded variables: infinite entries in the configuration have to reach the child as infinities
+            spec["lb"] = [(-1.0 if k % 2 == 0 else -np.inf) for k in range(V)]
+            spec["ub"] = [(np.inf if k % 3 == 0 else 1.0) for k in range(V)]
+            spec["_partly_bounded"] = True
         spec["optimizer"] = {"method": method, "max_iterations": 2, "options": {"maxiter": 2}, "speculative": bool(rng.random() < 0.3), "split_evaluations": bool(rng.random() < 0.3)}
         if big:
             spec["optimizer"].update({"max_iterations": 1, "options": {"maxiter": 1}, "max_functions": 3})
@@ -132,6 +137,7 @@ class Pipes:
 
     def __init__(self):
         self.writes = 0
+        self.config_sent = None
         self.big_writes = 0
         self.rounds_after_death = 0
         self.kill_after = None
@@ -157,6 +163,8 @@ class Pipes:
             ok = me._orig[1](self_, data)
             if ok:
                 me.writes += 1
+                if isinstance(data, dict) and "variables" in data and "optimizer" in data:
+                    me.config_sent = data
                 if len(json.dumps(data, default=lambda o: o.tolist())) > 4096:
                     me.big_writes += 1
                 if me.kill_after is not None and me.writes == me.kill_after + 1 and me.killed is None:
@@ -181,6 +189,33 @@ class Pipes:
 
     def remove(self):
         self._comm.read, self._comm.write = self._orig
+
+
+def _first_difference(a, b, path):
+    if isinstance(a, dict) and isinstance(b, dict):
+        for k in sorted(set(a) | set(b)):
+            if k not in a or k not in b:
+                return (f"{path}.{k}", a.get(k, "<missing>"), b.get(k, "<missing>"))
+            d = _first_difference(a[k], b[k], f"{path}.{k}")
+            if d is not None:
+                return d
+        return None
+    if isinstance(a, (list, tuple)) and isinstance(b, (list, tuple)):
+        if len(a) != len(b):
+            return (path, a, b)
+        for i, (x, y) in enumerate(zip(a, b)):
+            d = _first_difference(x, y, f"{path}[{i}]")
+            if d is not None:
+                return d
+        return None
+    if isinstance(a, np.ndarray) or isinstance(b, np.ndarray):
+        a, b = np.asarray(a), np.asarray(b)
+        if a.shape != b.shape or not (np.array_equal(a, b, equal_nan=True) if a.dtype.kind == "f" else np.array_equal(a, b)):
+            return (path, a, b)
+        return None
+    if isinstance(a, float) and isinstance(b, float) and a != a and b != b:
+        return None
+    return None if a == b else (path, a, b)
 
 
 def run_trace(spec, external, *, raise_at=None, pipes=None, start=None):
@@ -267,6 +302,8 @@ def run_case(case, obs):
     case["spec"] = spec
     tag = {"method": spec["optimizer"]["method"], "mode": mode}
     obs.feature("method." + spec["optimizer"]["method"])
+    if spec.get("_partly_bounded"):
+        obs.count("cases_with_partly_bounded_variables")
     if mode == "diff":
         abort_at = None
         if rng.random() < 0.25:
@@ -291,6 +328,18 @@ def run_case(case, obs):
         obs.count("external_runs")
         obs.count("messages_counted", pipes.writes)
         obs.count("messages_beyond_one_pipe_buffer", pipes.big_writes)
+        if pipes.config_sent is not None:
+            # the configuration as the child reads it (through JSON) is the configuration of the parent, infinities included
+            from ropt.config.enopt import EnOptConfig  # noqa: PLC0415
+
+            sx = dict(spec, optimizer=dict(spec["optimizer"], method="external/" + spec["optimizer"]["method"]))
+            want = EnOptConfig.model_validate(ens.make_config_dict(sx)).model_dump(round_trip=True)
+            got = EnOptConfig.model_validate(json.loads(json.dumps(pipes.config_sent, default=lambda o: o.tolist()))).model_dump(round_trip=True)
+            obs.count("configurations_compared_at_the_pipe")
+            diff = _first_difference(want, got, "config")
+            if diff is not None:
+                obs.violation("configuration_read_by_the_child_differs", where=diff[0], parent=diff[1], child=diff[2], **tag)
+                return
         if pipes.writes:
             obs.nontrivial(case)
         else:
